@@ -4,6 +4,7 @@
 import Bita.Model.Readers
 import Bita.Spec.Runs
 import Bita.Spec.Resume
+import Bita.Proofs.HttpTop
 
 namespace Bita.Proofs
 open Bita Bita.Spec
@@ -12,14 +13,59 @@ theorem maximalRuns_spec (cs : List ChunkOffset) :
     (maximalRuns cs).flatten = cs ∧
     (∀ r ∈ maximalRuns cs, r ≠ [] ∧ Contiguous r) ∧
     Separated (maximalRuns cs) := by
-  sorry
+  induction cs with
+  | nil => simp [maximalRuns, Separated]
+  | cons c cs ih =>
+    obtain ⟨h1, h2, h3⟩ := ih
+    rw [maximalRuns]
+    split
+    · rename_i d r rs heq
+      rw [heq] at h1 h2 h3
+      have hd := h2 (d :: r) (by simp)
+      split
+      · rename_i hadj
+        refine ⟨by simpa using h1, ?_, ?_⟩
+        · intro x hx
+          rcases List.mem_cons.1 hx with hx | hx
+          · subst hx; exact ⟨by simp, hadj, hd.2⟩
+          · exact h2 x (List.mem_cons_of_mem _ hx)
+        · cases rs with
+          | nil => trivial
+          | cons r2 rs =>
+            refine ⟨?_, h3.2⟩
+            have := h3.1
+            rw [List.getLast?_cons_cons]
+            exact this
+      · rename_i hadj
+        refine ⟨by simpa using h1, ?_, ?_⟩
+        · intro x hx
+          rcases List.mem_cons.1 hx with hx | hx
+          · subst hx; exact ⟨by simp, trivial⟩
+          · exact h2 x hx
+        · refine ⟨?_, h3⟩
+          intro a ha b hb
+          simp at ha hb
+          subst ha; subst hb
+          exact hadj
+    · rename_i rs hne
+      refine ⟨by simpa using h1, ?_, ?_⟩
+      · intro x hx
+        rcases List.mem_cons.1 hx with hx | hx
+        · subst hx; exact ⟨by simp, trivial⟩
+        · exact h2 x hx
+      · cases hrs : maximalRuns cs with
+        | nil => trivial
+        | cons r2 rs2 =>
+          cases r2 with
+          | nil => exact absurd rfl (h2 [] (by simp [hrs])).1
+          | cons d r => exact absurd hrs (hne d r rs2)
 
 theorem http_resume (data : Bytes) (retry : Nat) (chunks : List ChunkOffset) (script : List Resp)
     (hsize : ∀ c ∈ chunks, 1 ≤ c.size)
     (hin : ∀ c ∈ chunks, c.stop ≤ data.length) :
     httpReadChunks (fun off size => slice data off size) retry script chunks =
       fetchAll data retry (maximalRuns chunks) script := by
-  sorry
+  exact http_resume_aux data retry chunks.length chunks (Nat.le_refl _) hsize hin script
 
 theorem requests_are_maximal_runs (data : Bytes) (retry : Nat) (chunks : List ChunkOffset)
     (script : List Resp)
@@ -30,14 +76,28 @@ theorem requests_are_maximal_runs (data : Bytes) (retry : Nat) (chunks : List Ch
     httpReadChunks (fun off size => slice data off size) retry script chunks =
       ⟨chunks.map (fun c => Item.chunk (slice data c.offset c.size)),
        (maximalRuns chunks).map runRequest⟩ := by
-  sorry
+  rw [http_resume data retry chunks script hsize hin,
+    fetchAll_full data retry (maximalRuns chunks) script hfull hlen, (maximalRuns_spec chunks).1]
+  rfl
 
 theorem runRequest_bounds (r : List ChunkOffset) (a b : ChunkOffset)
     (hc : Contiguous r) (hsize : ∀ c ∈ r, 1 ≤ c.size)
     (ha : r.head? = some a) (hb : r.getLast? = some b) :
     (runRequest r).1 = a.offset ∧ (runRequest r).1 + (runRequest r).2 - 1 = b.stop - 1 ∧
     rangeHeader (runRequest r).1 (runRequest r).2 = s!"bytes={a.offset}-{b.stop - 1}" := by
-  sorry
+  cases r with
+  | nil => simp at ha
+  | cons c r' =>
+    simp only [List.head?_cons, Option.some.injEq] at ha
+    subst ha
+    rw [List.getLast?_eq_some_getLast (by simp), Option.some.injEq] at hb
+    have hs := contiguous_getLast_stop c r' hc
+    rw [hb] at hs
+    rw [runRequest_cons c r' hc]
+    have e : c.offset + total (c :: r') - 1 = b.stop - 1 := by rw [hs]
+    refine ⟨rfl, e, ?_⟩
+    simp only [rangeHeader]
+    rw [e]
 
 theorem http_items_exact_prefix (data : Bytes) (retry : Nat) (chunks : List ChunkOffset)
     (script : List Resp)
@@ -47,12 +107,16 @@ theorem http_items_exact_prefix (data : Bytes) (retry : Nat) (chunks : List Chun
         (chunks.take k).map (exactItem data) ++ tail ∧
       ((tail = [] ∧ k = chunks.length) ∨ tail = [Item.stall] ∨ tail = [Item.errHttp] ∨
         tail = [Item.errEnd]) := by
-  sorry
+  rw [http_resume data retry chunks script hsize hin]
+  have hspec := maximalRuns_spec chunks
+  have := fetchAll_prefix data retry (maximalRuns chunks) script (fun r hr => (hspec.2.1 r hr).2)
+  rw [hspec.1] at this
+  exact this
 
 theorem fetchRun_requests (stop pos budget : Nat) (script : List Resp) (hle : pos ≤ stop) :
     let r := fetchRun stop pos budget script
     (∀ q ∈ r.2.1, q.1 + q.2 = stop ∧ pos ≤ q.1) ∧ pos ≤ r.1 ∧ r.1 ≤ stop ∧
     (r.2.2.1 = RunEnd.done → r.1 = stop) := by
-  sorry
+  exact fetchRun_bounds stop script pos budget hle
 
 end Bita.Proofs
